@@ -100,8 +100,28 @@ def flush(rows, exps, res, lang, spell):
     del exps[:]
 
 
+def run_interleaved(sh, res):
+    """groups of 12 patterns evaluated text-major: every pattern is used again after 11 others (a bounded or re-keyed regexp cache shows here)"""
+    pats = sh['patterns']
+    texts = sh['texts']
+    for g in range(0, len(pats), 12):
+        group = pats[g:g + 12]
+        rows, exps = [], []
+        for t in texts:
+            for p in group:
+                rows.append([t, p])
+                exps.append(reflike.like(t, p))
+        res.states += len(rows)
+        res.transitions += len(rows)
+        res.feat('interleaved_pairs', len(rows))
+        flush(rows, exps, res, sh['lang'], 'like')
+
+
 def run_shard(sh):
     res = core.Result()
+    if sh['mode'] == 'interleaved':
+        run_interleaved(sh, res)
+        return res
     rows, exps = [], []
     lang = sh['lang']
     n = 0
@@ -147,6 +167,11 @@ def build(tier):
     plans.append(('py', 'other', list(patterns(other, 3)), 3))
     plans.append(('js', 'other', list(patterns(other, 3)), 3))
     shards = []
+    ipats = list(patterns(['a', 'b', '%', '_', '.'], 3))
+    itexts = list(patterns(['a', 'b', '.'], 3))
+    for lang in ('py', 'js'):
+        for lo, hi in core.chunks(len(ipats), 8):
+            shards.append({'lang': lang, 'mode': 'interleaved', 'patterns': ipats[lo:hi], 'texts': itexts})
     for plan in plans:
         lang, mode, pats, tmax = plan[:4]
         per = max(1, len(pats) // 48)
